@@ -31,6 +31,8 @@ from .vclock import VirtualClock, run_coroutine
 OP_TYPE = "verif-clientloop"
 MAX_REQUESTS = 400  # hard cap per run (a loop that does not terminate is cancelled and reported as 'capped')
 EXACT_EPS = 1e-9
+FINE = 1000  # finer grid for tick-exact cases whose run left the tick grid
+APPROX_TOL = 3  # ticks (ms) of tolerance for runs whose arithmetic is not tick-exact: every recorded value is rounded to a tick
 
 _HOME = None
 _RUN = None  # the run currently executing (single threaded)
@@ -344,14 +346,21 @@ def execute(case):
         _random_mod.expovariate = real_expo
         run.clock.uninstall()
         _RUN = None
-    return _project(case, run, aborted)
+    item, info = _project(case, run, aborted, 1)
+    if case.get("exact", True) and not item["exact"]:
+        # a tick-exact case whose run left the tick grid (only on a changed tree): record it on a grid 1000 times finer so
+        # that L1 is still evaluated with a small tolerance (L2 is not evaluated; run_cases reports drift)
+        item, _ = _project(case, run, aborted, FINE)
+    return item, info
 
 
-def _project(case, run, aborted):
-    from esrally import metrics  # noqa: F401  pylint: disable=unused-import
-
-    cfg = case["cfg"]
-    tps = cfg["tps"]
+def _project(case, run, aborted, mult):
+    """mult: record on a grid of cfg.tps * mult ticks per second (1 = the case's own ticks)."""
+    cfg = dict(case["cfg"])
+    tps = cfg["tps"] * mult
+    for k in ("wt", "tp", "ramp"):
+        cfg[k] *= mult
+    cfg["tps"] = tps
     conv = _Conv(tps, case.get("exact", True))
     pd = pd_of(cfg)
     events = []
@@ -400,13 +409,14 @@ def _project(case, run, aborted):
     for k, ev in enumerate(events):
         if ev["ncalls"] > 0:
             inc = run.incs[used_incs] if used_incs < len(run.incs) else run.default_inc
-            ev["inc"] = inc
+            ev["inc"] = inc * mult
             used_incs += ev["ncalls"]
+    exact = bool(case.get("exact", True)) and not conv.inexact and mult == 1
     item = {
-        "exact": bool(case.get("exact", True)) and not conv.inexact,
-        "tol": 0 if (case.get("exact", True) and not conv.inexact) else 2,
-        "cfg": dict(cfg),
-        "t0": case["t0"],
+        "exact": exact,
+        "tol": 0 if exact else APPROX_TOL,
+        "cfg": cfg,
+        "t0": case["t0"] * mult,
         "events": events,
         "end": {"n": nlog, "ny": ny, "aborted": bool(aborted), "capped": bool(run.capped), "stray": len(stray)},
     }
@@ -795,7 +805,7 @@ def run_property(ctx, out, pid, prefix, mc_cfg, selftest, seed_off, n_sim, n_ran
     ap = [random_case(rnd, False) for _ in range(n_rand)]
     items, infos = run_cases(ap, out, "approx", prefix, other)
     all_items += items
-    out.sample({"source": "random-approx (ms, non-dyadic: L1 with tolerance 2 ms, no L2)", "cfg": ap[0]["cfg"], "script": ap[0]["script"][:3], "recorded_requests": items[0]["events"][:2]})
+    out.sample({"source": "random-approx (ms, non-dyadic: L1 with tolerance 3 ms, no L2)", "cfg": ap[0]["cfg"], "script": ap[0]["script"][:3], "recorded_requests": items[0]["events"][:2]})
     out.note("leg C2S: %d recorded runs accepted by TLC (L1 clauses %s*, and L2 on tick-exact runs)" % (out.traces_validated, prefix))
     if other:
         out.note("clauses of the sibling property failed on some run (reported by its own check): %s" % sorted(other))
